@@ -205,10 +205,17 @@ def tokErr (t : String) : Option String :=
 
 /-- no fake success: where the specification (new decoders on the sequence's bytes — for which `C03_no_fake_success`
 is proved) demands an error of `Decode` / `Discard`, the implementation must not answer `ok` -/
+def exclRun : Spec → List Op → List Bool
+  | _, [] => []
+  | p, op :: ops => p.excluded op :: exclRun (specStep p op).1 ops
+
 def fakeSuccess (l : Line) (toks : List String) : Option Nat :=
   let spec := specRun (Spec.fresh l.o (l.streams.headD [])) l.ops
-  (((l.ops.zip spec).zip toks).zipIdx.find? (fun (((op, sp), t), _) =>
-    match op, sp with
+  -- operations in the class of KF-C07-4 (a predecessor's last record overran its data size: where the current sequence
+  -- starts then depends on how the predecessor was consumed) are C07's subject, not a fake success of this sequence
+  let excl := exclRun (Spec.fresh l.o (l.streams.headD [])) l.ops
+  ((((l.ops.zip spec).zip excl).zip toks).zipIdx.find? (fun ((((op, sp), ex), t), _) =>
+    !ex && match op, sp with
     | .decode, some (.err _, _) | .decodeCtx _, some (.err _, _) | .decodeCtxAt _, some (.err _, _) | .discard, some (.err _, _) =>
       t.startsWith "ok"
     | _, _ => false)).map (·.2)
